@@ -345,17 +345,16 @@ Qed.
    about CPython's parser *)
 Theorem format_fragment_raise_reported : forall t nargs kw fs errs,
   ffrag t = true -> pa_parse t = Some (fs, errs) ->
-  mix_clause fs = false ->
   py_format_verdict t nargs kw = VRaises ->
   option_map freport_reports (pa_format_check t nargs kw) = Some true.
 Proof.
-  intros t nargs kw fs errs F Hpa Hm Hv.
+  intros t nargs kw fs errs F Hpa Hv.
   destruct (format_scan_agree_fragment t fs errs F Hpa) as [H1 H2].
   unfold pa_format_check. rewrite Hpa.
   destruct errs as [|[p e] errs]; [|reflexivity].
   simpl. unfold py_format_verdict in Hv. rewrite (H1 eq_refl) in Hv.
   destruct (py_fields_raise fs nargs kw AInit 0) eqn:Er.
-  - rewrite (format_raise_reported fs nargs kw Hm Er). reflexivity.
+  - rewrite (format_raise_reported fs nargs kw Er). reflexivity.
   - destruct (forallb simple_field fs); discriminate.
 Qed.
 
